@@ -32,6 +32,9 @@ pub enum Op {
     Iter,
     Index(u32),
     InsertZero,
+    /// the current contents take the deserialisation path into a fresh table (another way entries
+    /// get in), which is then asked for every handle of the pool
+    Deserialised,
 }
 
 impl Op {
@@ -49,6 +52,7 @@ impl Op {
             Op::Iter => "iter",
             Op::Index(..) => "index",
             Op::InsertZero => "insert_zero",
+            Op::Deserialised => "deserialised",
         }
     }
     fn fallible(&self) -> bool {
@@ -140,14 +144,14 @@ fn gen_history(rng: &mut Rng, tier: Tier) -> History {
     }
     for _ in 0..nops {
         let k = *rng.pick(&pool);
-        let w: [u32; 12] = match path {
+        let w: [u32; 13] = match path {
             // insert-only growth
-            1 => [50, 12, 8, 3, 5, 0, 2, 1, 2, 3, 3, 1],
+            1 => [50, 12, 8, 3, 5, 0, 2, 1, 2, 3, 3, 1, 2],
             // entry-only growth
-            2 | 3 => [0, 12, 8, 3, 5, 50, 2, 1, 2, 3, 3, 0],
+            2 | 3 => [0, 12, 8, 3, 5, 50, 2, 1, 2, 3, 3, 0, 2],
             // removal heavy
-            4 => [25, 30, 10, 3, 8, 10, 1, 1, 2, 4, 3, 1],
-            _ => [22, 14, 10, 4, 6, 18, 3, 2, 3, 4, 4, 1],
+            4 => [25, 30, 10, 3, 8, 10, 1, 1, 2, 4, 3, 1, 2],
+            _ => [22, 14, 10, 4, 6, 18, 3, 2, 3, 4, 4, 1, 2],
         };
         let op = match rng.weighted(&w) {
             0 => {
@@ -170,7 +174,8 @@ fn gen_history(rng: &mut Rng, tier: Tier) -> History {
             8 => Op::CloneSwap,
             9 => Op::Iter,
             10 => Op::Index(k),
-            _ => Op::InsertZero,
+            11 => Op::InsertZero,
+            _ => Op::Deserialised,
         };
         ops.push(op);
     }
@@ -413,6 +418,24 @@ pub fn run_history<V: Val, A: Allocator + Clone>(
                     let want: Vec<(u32, u64)> = model.iter().map(|(k, v)| (*k, *v)).collect();
                     if got != want {
                         return Err(("iteration".into(), format!("iter got {got:?} want {want:?}")));
+                    }
+                }
+                Op::Deserialised => {
+                    let json = serde_json::Value::Object(model.iter().map(|(k, v)| (k.to_string(), json!(v))).collect());
+                    let t2: HandleTable<u64> = match serde_json::from_value(json) {
+                        Ok(t) => t,
+                        Err(e) => return Err(("unexpected-error".into(), format!("deserialising {} entries: {e}", model.len()))),
+                    };
+                    if t2.len() != model.len() {
+                        return Err(("len".into(), format!("deserialised table has len {} want {}", t2.len(), model.len())));
+                    }
+                    for k in pool.iter() {
+                        let got = t2.get(handle(*k)).copied();
+                        let want = model.get(k).copied();
+                        if got != want {
+                            let d = if got.is_none() { "lost-handle" } else if want.is_none() { "phantom-handle" } else { "stale-value" };
+                            return Err((d.into(), format!("deserialised table: get({k}) got {got:?} want {want:?}")));
+                        }
                     }
                 }
                 Op::Index(k) => {
